@@ -245,6 +245,25 @@ def run(ctx):
         cases.append({'ids': ids, 'version': 33, 'edition': 4, 'nsub': rng.choice([1, 2]), 'compressed': comp,
                       'forced': forced, 'seed': rng.randrange(1, 2 ** 32), 'maxrep': 3,
                       'features': {'marker-replicated': 1, 'marker-under-%d' % (on // 1000): 1}, 'shared': comp})
+    # two marker operators in one subset, the first while a modifier is in force, the second after its cancellation
+    # (default operator state): the state recorded for each marker must be applied even when all its values are the
+    # defaults (0 / None), also after save and load
+    for k in range(ctx.n(16, 120)):
+        op = rng.choice([223, 224, 225, 232])
+        on = rng.choice([201129, 201130, 201132, 202129, 202130, 207001, 207002])
+        els = [rng.choice([12001, 10004, 11001, 11002, 7001, 13003]) for _ in range(2)]
+        sig = [8023] if op == 224 else [8024] if op == 225 else []
+        mk = op * 1000 + 255
+        order = [on, mk, on // 1000 * 1000, mk] if k % 2 == 0 else [on, mk, mk, on // 1000 * 1000, mk]
+        if k % 4 == 3:
+            order = [mk] + order                       # default, modified, default
+        nm = order.count(mk)
+        els = els + [rng.choice([12001, 10004, 7001]) for _ in range(nm - 2)]
+        ids = els + [op * 1000, 236000, 101000 + nm, 31031] + sig + order
+        comp = rng.random() < 0.3
+        cases.append({'ids': ids, 'version': 33, 'edition': 4, 'nsub': rng.choice([1, 2]), 'compressed': comp,
+                      'forced': '31031=' + '.'.join(['0'] * nm), 'seed': rng.randrange(1, 2 ** 32), 'maxrep': 3,
+                      'features': {'marker-under-%d' % (on // 1000): 1, 'marker-default-after-modified': 1}, 'shared': comp})
     for c in cases:
         if c.get('shared') is None:
             c['shared'] = c['compressed']
